@@ -54,7 +54,7 @@ def fmtDRes : DMap.Res → String
 
 def range (n : Nat) : List Nat := List.range n
 
-def dataOps : List String := ["c.put", "c.get", "c.getx", "c.del", "c.expire", "c.getput", "c.incr", "c.decr", "c.lock", "c.lockw", "c.unlockx", "c.leasex",
+def dataOps : List String := ["c.put", "c.get", "c.getx", "c.del", "c.expire", "c.getput", "c.incr", "c.decr", "c.lock", "c.lockw", "c.unlockx", "c.leasex", "c.atomx",
   "c.unlock", "c.lease", "c.destroy", "c.pipeline"]
 
 def tokBytes (n : Nat) : Bytes := ("tok" ++ toString n).toUTF8.toList
@@ -138,6 +138,23 @@ def clusterStep (s : CSt) (now : Int) (op : String) (a : List String) : Option (
     match res with
     | .acquired => some ({ s with cl := cl', ntok := s.ntok + 1 }, s!"tok{s.ntok}")
     | r => some ({ s with cl := cl' }, fmtLock r)
+  | "c.atomx" =>
+    -- <path> <i> <dmap> <key> <op1> <arg1> -- <path2> <i2> <op2> <arg2>: the second operation is started inside the
+    -- first one's read-modify-write window; it has to wait: the outcome is "first, then second"
+    let dm := (arg 2).toUTF8.toList
+    let k := unhx (arg 3)
+    let r := s.route dm k
+    let run := fun (c : Cluster) (o : String) (x : String) =>
+      match o with
+      | "incr" => let (c', res) := DMap.incr s.cfg r s.reach c dm k (int x) now
+                  (c', match res with | some n => toString n | none => "err")
+      | "decr" => let (c', res) := DMap.incr s.cfg r s.reach c dm k (-(int x)) now
+                  (c', match res with | some n => toString n | none => "err")
+      | _ => let (c', res, old) := DMap.getPut s.cfg r s.reach c dm k (unhx x) now
+             (c', match res with | .ok => (match old with | some y => hx y.val | none => "none") | e => fmtDRes e)
+    let (c1, r1) := run s.cl (arg 4) (arg 5)
+    let (c2, r2) := run c1 (arg 9) (arg 10)
+    some ({ s with cl := c2 }, s!"{r1} inner=blocked:{r2}")
   | "c.lockw" =>
     -- a waiting Lock: one attempt now, and (the key being held) the attempts after the clock advanced
     let dm := (arg 2).toUTF8.toList
